@@ -140,6 +140,6 @@ PROPS = {
         "engines": [storm("admin")],
         "rule": "each evaluation is one fee collection (token deltas of the five accounts vs bucket reductions), one draw-down of a fee / insurance vault (signer rule), one emissions credit / payout (conservation, proportional bound, destination) or one commit-time emissions-vault cover check; distinct = (clamp class, bucket signs, fractional, transfer-fee) and emission event classes",
         "assumptions": COMMON_ASSUMPTIONS,
-        "floors": {"quick": {"C19.collections": 300, "C19.emission_payouts": 50, "C19.insurance_vault_drawdowns/WithdrawInsurance": 20}},
+        "floors": {"quick": {"C19.collections": 300, "C19.emission_payouts": 50, "C19.emission_lower_bounds_checked": 300, "C19.emission_lower_bounds_checked_borrow_side": 30, "C19.insurance_vault_drawdowns/WithdrawInsurance": 20}},
     },
 }
